@@ -541,9 +541,10 @@ func main() {
 		doTCP(e, false, hlib.Pick(rng, some))
 		doTCP("-", false, e)
 	}
-	for i := 0; i < 5; i++ {
+	for i := 0; i < 25; i++ { // the success path is concurrent code (tun.Pipe): repeat it
 		doTCP("-", true, "-")
 		doTCP("-", false, "-")
+		doConnect(true, "-", true, "OK", true)
 	}
 	for _, addrOk := range []bool{true, false} {
 		for _, recvOk := range []bool{true, false} {
